@@ -259,7 +259,9 @@ func (fr *Frame) copyBuiltin(c *ssa.CallCommon, args []Val, rt types.Type) Val {
 func libModSet(vc *VC, callee *ssa.Function, c *ssa.CallCommon) (map[string]bool, bool) {
 	k := funcKey(callee)
 	switch {
-	case strings.HasPrefix(k, "atomic.("), strings.HasPrefix(k, "sync.(*Mutex)"), strings.HasPrefix(k, "sync.(*RWMutex)"):
+	case strings.HasPrefix(k, "sync.(*Mutex)"), strings.HasPrefix(k, "sync.(*RWMutex)"):
+		return map[string]bool{}, true
+	case strings.HasPrefix(k, "atomic.("):
 		set := map[string]bool{}
 		if len(c.Args) > 0 {
 			vc.addrFamilies(c.Args[0], set)
@@ -327,6 +329,13 @@ func (fr *Frame) libModel(callee *ssa.Function, args []Val, rt types.Type, pos t
 		}
 		fr.cur.heap = vc.heapSet(fr.cur.heap, "E_uint8", vc.define("E_uint8", vc.famSort["E_uint8"], "(store "+cur+" "+b.L[0]+" "+inner+")"))
 		return Val{Typ: rt}, true
+	}
+	if strings.HasPrefix(k, "sync.(*Mutex).") || strings.HasPrefix(k, "sync.(*RWMutex).") {
+		switch callee.Name() {
+		case "Lock", "Unlock", "RLock", "RUnlock":
+			vc.note("sync.Mutex/RWMutex Lock/Unlock: no effect on modelled state (sequential reading; data protected by the mutex is assumed not to change under the lock holder)")
+			return Val{Typ: rt}, true
+		}
 	}
 	// sync/atomic typed values: modelled as sequentially consistent cells
 	if strings.HasPrefix(k, "atomic.(*") {
